@@ -58,6 +58,17 @@ check("C20",
       "metamorphic property-based testing: same generated program under enumerated option configurations and generated clock magnitudes must yield the identical observable trace",
       "DESIGN.md 5/C20")
 
+check("C10",
+      "Generated operation sequences (value, error, call, is_computed, set_value, set_error, reset_unsafe, subscribe with well-behaved or raising callbacks) on each of 12 future kinds (Future with returning/raising provider, ConstFuture, ErrorFuture, AsyncTask returning/raising/blocking on a batch, batches with succeeding/failing flush, their items, DebugBatchItem) are executed against the real object and an explicit three-state reference model; every return value / exception, the stored outcome after rejected set_* calls, the number of runs of the underlying computation, and the set of subscribers notified per completion (each exactly once, after the outcome is visible, even if another raises) are compared after every step.",
+      "Trusted: the reference model in harness/props/c10.py (soundness notes encoded: error() on a pending raising lazy Future propagates once; sinking hooks of Const/ErrorFuture; natural recomputation after reset_unsafe only for Future).",
+      "model-based testing: generated operation histories against an explicit reference state machine (stateful PBT, shrinkable op lists)",
+      "DESIGN.md 5/C10")
+check("C11",
+      "Generated operation sequences (add-item, flush, cancel with/without error, item.value(), batch.value()/error(), state queries) on a README-style BatchBase subclass with a generated flush behaviour (per item: set value / set error / leave unset; then return / raise Exception / raise BaseException / cancel itself; optionally create a new item while flushing) and on the built-in DebugBatch, against a reference lifecycle model: flush never raises for a failing body, second flush raises BatchingError, cancel never raises, no item joins a finished batch, every item complete (value > flush/cancel error > AssertionError) when the batch's completion is announced exactly once, body runs at most once, the batch stops being the active batch before its body runs and items created during the flush join a fresh pending batch.",
+      "Trusted: the reference lifecycle model in harness/props/c11.py.",
+      "model-based testing: generated operation histories with generated flush behaviours against a reference lifecycle model",
+      "DESIGN.md 5/C11")
+
 for pid in ["C%02d" % i for i in range(1, 21)]:
     if pid not in CHECKS:
         PENDING[pid] = "check under construction in this framework (designed in DESIGN.md section 5, not yet registered)"
